@@ -289,8 +289,20 @@ def report(r, n_groups=None, kinds=('planar', 'volumetric', 'image')):
     oc = sr.ObservationContext(observer_person_context=sr.ObserverContext(
         observer_type=codes.DCM.Person,
         observer_identifying_attributes=sr.PersonObserverIdentifyingAttributes(name='Doe^Jane')))
-    rep = sr.MeasurementReport(observation_context=oc, procedure_reported=codes.LN.CTUnspecifiedBodyRegion,
-                               imaging_measurements=objs)
+    # report-level options (what else the root container holds next to the measurement groups): an image library (TID 1600,
+    # its own containers and IMAGE items at the top level of the report), one or two reported procedures, another title
+    opts = {'library': r.random() < 0.25, 'procedures': r.choice([1, 1, 2]), 'title': r.random() < 0.2}
+    kw = {}
+    if opts['library']:
+        from gen import sources
+        kw['referenced_images'] = sources.ct_series(r.choice([1, 2]), 4, 5)
+    if opts['title']:
+        kw['title'] = codes.cid7021.OncologyMeasurementReport
+    procedures = [codes.LN.CTUnspecifiedBodyRegion, codes.cid100.MRIUnspecifiedBodyRegion][:opts['procedures']]
+    rep = sr.MeasurementReport(observation_context=oc, procedure_reported=procedures if len(procedures) > 1 else procedures[0],
+                               imaging_measurements=objs, **kw)
+    pool['report_options'] = opts
+    pool['library'] = kw.get('referenced_images', [])
     return rep, groups, pool
 
 
